@@ -52,9 +52,13 @@ ASSUMPTIONS = [
 MOLS = ["CH4", "H2O", "OH-", "NH4+", "H2CO", "CH3", "N2"]
 # molecules of the open-shell padding lattice E only (kept out of the shared alphabet): radical anions, whose singly
 # occupied level lies above 0 eV, i.e. above the value an unshifted padding orbital would have
+_H2 = dict(species=[1, 1], coords=np.array([[0.0, 0.0, 0.0], [0.74, 0.0, 0.0]]), charge=0, mult=1)
 LOCAL = {
     "H2O-": dict(M.MOLS["H2O"], charge=-1, mult=2),
     "NH3-": dict(M.MOLS["NH3"], charge=-1, mult=2),
+    # a spin channel without any electron (the beta channel of a one-electron doublet / of triplet H2)
+    "H2+": dict(_H2, charge=1, mult=2),
+    "H2(T)": dict(_H2, mult=3),
 }
 
 
@@ -341,7 +345,9 @@ def _lattice(tier, seed):
                     add("D", "AM1", b, s, None, e, "default", cap)
     # E: open-shell batches whose padded member is an anion / radical anion, in every position
     bE = [("SO2", "H2O-"), ("H2O-", "SO2"), ("H2CO", "H2O-"), ("H2CO", "NH3-"), ("SO2", "CH3", "OH-"), ("H2CO", "H2O-", "OH-")]
+    bE += [("H2+",), ("H2(T)",), ("H2O", "H2+"), ("H2(T)", "CH3"), ("H2+", "H2(T)")]
     if not quick:
+        bE += [("SO2", "H2(T)", "H2+"), ("H2+", "H2O-"), ("OH-", "H2(T)")]
         bE += [("NH3-", "H2CO"), ("SO2", "NH3-", "H2O-"), ("CH3", "H2O-"), ("H2O-", "H2CO", "NH3-"), ("SO2", "OH-", "H2O-")]
     for b in bE:
         for s in ("fixed0.3", "adaptive", "ksa") if quick else tuple(SOLVERS):
